@@ -90,6 +90,17 @@ class Gen:
                 # of "the value it denotes" - the library hands over a plain str for a lone text node)
                 return self.filtered(d, exclude=("escape", "safe"))
             return d
+        elif r < 0.46 and allow_filter:
+            # a PLAIN string followed by a filter whose argument is a string with template syntax (or the two strings form
+            # a tag-like span between them): filter arguments are literals, the value is an ordinary filter expression
+            self.features.add("plain-string-with-tag-like-filter-argument")
+            opener, closer = rng.choice([("{{", "}}"), ("{#", "#}"), ("{%", "%}")])
+            base = ["str", rng.choice([["a"], ["a", opener], ["&", opener, " "], [opener, "b"], []])]
+            arg = ["str", rng.choice([[opener, " ", "v_int", " ", closer], [closer], [" ", closer, ","], [opener, "x", closer, "y"]])]
+            chain = [[rng.choice(["default_if_none", "add", "cut", "default"]), arg]]
+            if rng.random() < 0.4:
+                chain.insert(rng.randint(0, 1), [rng.choice(["lower", "upper"]), None])
+            return ["filt", base, chain]
         else:
             base = self.literal()
         if allow_filter and rng.random() < 0.3:
